@@ -83,6 +83,8 @@ def answer (fn : String) (bytes : List UInt8) (a1 a2 : Option Nat) : String :=
   | "readdata1" =>
     showData (readData1 ⟨fun _ => false, knownC05a, fun _ => false⟩ C05.entNmArrGuard C05.skipInstanceSkipsComments false C05.readCommentIters
       C05.maxErrorCount fuel (IS.ofBytes bytes))
+  | "getkeyword" =>
+    showLoop (fun r => s!"len={r.len} ") (getKeyword ";( /\\".toUTF8.toList fuel (IS.ofBytes bytes))
   | "finddata" =>
     showLoop (fun r => s!"found={r.sev} ") (findDataSection C05.skipInstanceSkipsComments C05.readCommentIters fuel (IS.ofBytes bytes))
   | "aggrown" =>
